@@ -93,6 +93,15 @@ pub mod chunks {
     pub const MORB: ChunkId = ChunkId::from_str("MORB");
 }
 
+/// Largest number of elements reserved up front for a list whose length comes from the file
+/// (MOHD counts, chunk sizes). Longer lists still parse — the vector grows as records arrive —
+/// but a hostile count runs into the end of the stream instead of reserving gigabytes first.
+const MAX_PREALLOC_ELEMENTS: usize = 4096;
+
+fn bounded_capacity(count: usize) -> usize {
+    count.min(MAX_PREALLOC_ELEMENTS)
+}
+
 /// WMO parser for reading WMO files
 pub struct WmoParser;
 
@@ -350,7 +359,7 @@ impl WmoParser {
         };
 
         momt_chunk.seek_to_data(reader)?;
-        let mut materials = Vec::with_capacity(n_materials as usize);
+        let mut materials = Vec::with_capacity(bounded_capacity(n_materials as usize));
 
         const MATERIAL_SIZE: usize = 64;
 
@@ -434,7 +443,7 @@ impl WmoParser {
         };
 
         mogi_chunk.seek_to_data(reader)?;
-        let mut groups = Vec::with_capacity(n_groups as usize);
+        let mut groups = Vec::with_capacity(bounded_capacity(n_groups as usize));
 
         for i in 0..n_groups {
             let flags = WmoGroupFlags::from_bits_truncate(reader.read_u32_le()?);
@@ -496,7 +505,7 @@ impl WmoParser {
 
         let mopv_data = mopv_chunk.read_data(reader)?;
         let n_vertices = mopv_data.len() / 12; // 3 floats per vertex (x, y, z)
-        let mut portal_vertices = Vec::with_capacity(n_vertices);
+        let mut portal_vertices = Vec::with_capacity(bounded_capacity(n_vertices));
 
         for i in 0..n_vertices {
             let offset = i * 12;
@@ -533,7 +542,7 @@ impl WmoParser {
         };
 
         mopt_chunk.seek_to_data(reader)?;
-        let mut portals = Vec::with_capacity(n_portals as usize);
+        let mut portals = Vec::with_capacity(bounded_capacity(n_portals as usize));
 
         for _ in 0..n_portals {
             let vertex_index = reader.read_u16_le()? as usize;
@@ -547,7 +556,7 @@ impl WmoParser {
             reader.seek(SeekFrom::Current(4))?;
 
             // Get portal vertices
-            let mut vertices = Vec::with_capacity(n_vertices);
+            let mut vertices = Vec::with_capacity(bounded_capacity(n_vertices));
             for i in 0..n_vertices {
                 let vertex_idx = vertex_index + i;
                 if vertex_idx < portal_vertices.len() {
@@ -583,7 +592,7 @@ impl WmoParser {
 
         let mopr_data = mopr_chunk.read_data(reader)?;
         let n_refs = mopr_data.len() / 8; // 4 u16 values per reference
-        let mut refs = Vec::with_capacity(n_refs);
+        let mut refs = Vec::with_capacity(bounded_capacity(n_refs));
 
         for i in 0..n_refs {
             let offset = i * 8;
@@ -620,7 +629,7 @@ impl WmoParser {
 
         let movv_data = movv_chunk.read_data(reader)?;
         let n_entries = movv_data.len() / 4; // u32 offset per entry
-        let mut offsets = Vec::with_capacity(n_entries);
+        let mut offsets = Vec::with_capacity(bounded_capacity(n_entries));
 
         for i in 0..n_entries {
             let offset = u32::from_le_bytes([
@@ -679,7 +688,7 @@ impl WmoParser {
         };
 
         molt_chunk.seek_to_data(reader)?;
-        let mut lights = Vec::with_capacity(n_lights as usize);
+        let mut lights = Vec::with_capacity(bounded_capacity(n_lights as usize));
 
         for _ in 0..n_lights {
             let light_type_raw = reader.read_u8()?;
@@ -801,7 +810,7 @@ impl WmoParser {
             );
         }
 
-        let mut doodads = Vec::with_capacity(actual_doodad_count as usize);
+        let mut doodads = Vec::with_capacity(bounded_capacity(actual_doodad_count as usize));
 
         for _ in 0..actual_doodad_count {
             let name_index_raw = reader.read_u32_le()?;
@@ -862,7 +871,7 @@ impl WmoParser {
         };
 
         mods_chunk.seek_to_data(reader)?;
-        let mut sets = Vec::with_capacity(n_doodad_sets as usize);
+        let mut sets = Vec::with_capacity(bounded_capacity(n_doodad_sets as usize));
 
         for _i in 0..n_doodad_sets {
             // Read 20 bytes for the set name (including null terminator)
@@ -959,7 +968,7 @@ impl WmoParser {
         }
 
         let plane_count = mcvp_data.len() / PLANE_SIZE;
-        let mut planes = Vec::with_capacity(plane_count);
+        let mut planes = Vec::with_capacity(bounded_capacity(plane_count));
 
         let mut cursor = std::io::Cursor::new(&mcvp_data);
 
